@@ -171,8 +171,52 @@ func TLSDial(network, addr string, config *tls.Config) (*tls.Conn, error) {
 	return conn, nil
 }
 
-func TLSDialWithDialer(dialer *net.Dialer, network, addr string, config *tls.Config) (*tls.Conn, error) {
-	return TLSDial(network, addr, config)
+// Dialer stands in for net.Dialer where socketace passes one to tls.DialWithDialer.
+type Dialer struct {
+	Timeout  time.Duration
+	Deadline time.Time
+}
+
+// TLSDialWithDialer mirrors crypto/tls.DialWithDialer: the dialer's timeout
+// covers the connect and the TLS handshake together.
+func TLSDialWithDialer(dialer *Dialer, network, addr string, config *tls.Config) (*tls.Conn, error) {
+	var deadline time.Time
+	if dialer != nil {
+		if dialer.Timeout > 0 {
+			deadline = time.Now().Add(dialer.Timeout)
+		}
+		if !dialer.Deadline.IsZero() && (deadline.IsZero() || dialer.Deadline.Before(deadline)) {
+			deadline = dialer.Deadline
+		}
+	}
+	if deadline.IsZero() {
+		return TLSDial(network, addr, config)
+	}
+	raw, err := DialTimeout(network, addr, time.Until(deadline))
+	if err != nil {
+		return nil, err
+	}
+	colonPos := strings.LastIndex(addr, ":")
+	if colonPos == -1 {
+		colonPos = len(addr)
+	}
+	hostname := addr[:colonPos]
+	if config == nil {
+		config = &tls.Config{}
+	}
+	if config.ServerName == "" {
+		c := config.Clone()
+		c.ServerName = hostname
+		config = c
+	}
+	conn := tls.Client(raw, config)
+	raw.SetDeadline(deadline)
+	if err := conn.Handshake(); err != nil {
+		raw.Close()
+		return nil, err
+	}
+	raw.SetDeadline(time.Time{})
+	return conn, nil
 }
 
 // TLSListen mirrors crypto/tls.Listen.
